@@ -16,12 +16,14 @@ JAVA_CP = "/opt/veriftools/tla/tla2tools.jar:/opt/veriftools/tla/CommunityModule
 class Machinery(Exception):
     pass
 
+_created = []
+
 def build_harness():
     os.makedirs(os.path.dirname(BIN), exist_ok=True)
     h = os.path.join(V, "harness")
     if ALT:
-        h2 = os.path.join(WORK, "harness-" + os.path.basename(BIN))
-        shutil.rmtree(h2, ignore_errors=True); shutil.copytree(h, h2)
+        h2 = os.path.join(WORK, "harness-%s-%d" % (os.path.basename(BIN), os.getpid()))   # per process: checks may run side by side
+        shutil.rmtree(h2, ignore_errors=True); shutil.copytree(h, h2); _created.append(h2)
         gm = open(os.path.join(h2, "go.mod")).read().replace("=> /repo", "=> " + os.path.abspath(REPO))
         open(os.path.join(h2, "go.mod"), "w").write(gm)
         h = h2
@@ -34,7 +36,6 @@ def build_harness():
     os.replace(tmp, BIN)       # atomic: concurrent checks never see a half-written binary
     return BIN
 
-_created = []
 def _cleanup():
     for d in _created: shutil.rmtree(d, ignore_errors=True)
 import atexit
